@@ -463,13 +463,27 @@ unsafe fn do_spawn<F: PreExec>(
         // A failure in here must never return to the caller's code in this (the child) process,
         // it's reported to the parent through the pipe, like a failed exec
         let setup = (|| -> Result<()> {
-            if let Some(fd) = theirs.stdin.fd() {
+            let mut sources = [theirs.stdin.fd(), theirs.stdout.fd(), theirs.stderr.fd()];
+            // A source that is itself one of the standard descriptors of another stream (the
+            // caller's stdout given for stderr) would be replaced by an earlier `dup2` before
+            // it's used, move those out of the way first
+            for (target, source) in [STDIN, STDOUT, STDERR].into_iter().zip(sources.iter_mut()) {
+                if let Some(fd) = source {
+                    if fd.value() <= STDERR.value() && fd.value() != target.value() {
+                        *source = Some(rusl::unistd::fcntl_dup_fd_cloexec(
+                            *fd,
+                            Fd::comptime_checked_new(3),
+                        )?);
+                    }
+                }
+            }
+            if let Some(fd) = sources[0] {
                 rusl::unistd::dup2(fd, STDIN)?;
             }
-            if let Some(fd) = theirs.stdout.fd() {
+            if let Some(fd) = sources[1] {
                 rusl::unistd::dup2(fd, STDOUT)?;
             }
-            if let Some(fd) = theirs.stderr.fd() {
+            if let Some(fd) = sources[2] {
                 rusl::unistd::dup2(fd, STDERR)?;
             }
             if let Some(cwd) = cwd {
